@@ -5,7 +5,7 @@
    [wire_len ls <= 255] is RFC 1035's length limit.  The model functions are those of
    Model/NameText.v; the right-hand sides are the list-level definitions of Spec/NameTextS.v. *)
 From QV Require Import Base.ListX Model.NameWire Model.NameText Spec.NameWireS Spec.NameRepr Spec.NameTextS
-  Proofs.NameLabelsP Proofs.NameCmpP Proofs.NameTextP.
+  Proofs.NameLabelsP Proofs.NameCmpP Proofs.NameTextP Proofs.NameMoreP.
 
 (* labels() / Index<usize> of a well-formed name yield its labels followed by the root label, without panic *)
 Theorem c16_labels : forall ls, wire_len ls <= 255 -> labels (name_of ls) = Ok (ls ++ [[]]).
@@ -58,6 +58,31 @@ Proof. exact eq_or_subdomain_spec. Qed.
 
 Theorem c16_is_root : forall ls, is_root (name_of ls) = match ls with [] => true | _ => false end.
 Proof. exact is_root_spec. Qed.
+
+(* superdomain(skip): the name without its first [skip] labels, for skip up to the number of labels (the
+   root label can be reached, nothing beyond); the u8 offset arithmetic never panics. *)
+Theorem c16_superdomain : forall ls skip,
+  Forall (fun l : list N => 1 <= length l <= 63) ls -> wire_len ls <= 255 ->
+  superdomain (name_of ls) skip =
+  Ok (if skip <=? length ls then Some (name_of (skipn skip ls)) else None).
+Proof.
+  intros ls skip Hf Hl. rewrite (superdomain_spec ls skip Hf Hl). unfold spec_superdomain.
+  unfold label, bytes. destruct (skip <=? length ls); reflexivity.
+Qed.
+
+(* make_ascii_lowercase (and Box<LowercaseName>::from) lower-cases every label octet and nothing else. *)
+Theorem c16_lowercase : forall ls, wire_len ls <= 255 ->
+  make_ascii_lowercase (name_of ls) = Ok (name_of (map (map lower) ls)) /\
+  lowercase_name_from (name_of ls) = Ok (name_of (map (map lower) ls)).
+Proof. exact (fun ls H => conj (make_ascii_lowercase_spec ls H) (make_ascii_lowercase_spec ls H)). Qed.
+
+Theorem c16_lowercase_idempotent : forall ls,
+  spec_lowercase (spec_lowercase ls) = spec_lowercase ls /\ wire_len (spec_lowercase ls) = wire_len ls.
+Proof. exact (fun ls => conj (lowercase_idempotent ls) (lowercase_wire_len ls)). Qed.
+
+Theorem c16_is_wildcard : forall ls, wire_len ls <= 255 ->
+  is_wildcard (name_of ls) = Ok (match ls with l :: _ => eq_nocase l [42%N] | [] => false end).
+Proof. exact is_wildcard_spec. Qed.
 
 (* ---- text form ---------------------------------------------------------------------------------------- *)
 
@@ -131,3 +156,7 @@ Print Assumptions c16_display.
 Print Assumptions c16_text_roundtrip.
 Print Assumptions c16_builder_partial.
 Print Assumptions c16_builder_finish.
+Print Assumptions c16_superdomain.
+Print Assumptions c16_lowercase.
+Print Assumptions c16_lowercase_idempotent.
+Print Assumptions c16_is_wildcard.
